@@ -1550,5 +1550,40 @@ pub fn gen(seed: u64, thorough: bool) -> Vec<String> {
             }
         }
     }
+    // ---- (e3) a dimension of exactly u32::MAX (and its neighbours): rects at the far edge, inside and crossing 2^32
+    // along ONE axis only (offset + size must be compared without wrapping or saturating)
+    for (w, h, dxgi) in [
+        (u32::MAX, 1u32, 61u32),
+        (u32::MAX, 2, 61),
+        (1, u32::MAX, 61),
+        (3, u32::MAX, 56),
+        (u32::MAX, 4, 71),
+        (8, u32::MAX, 71),
+        (u32::MAX - 1, 2, 61),
+        (2, u32::MAX - 1, 103),
+        (u32::MAX, 2, 103),
+        (1 << 31, 2, 28),
+    ] {
+        let file = file_of(&dx10(w, h, None, 1, dxgi, 3, 0, 1, 0));
+        let (mx, my) = (w as u64, h as u64);
+        let mut ops = String::from("L");
+        for c in [0u32, 3, 7] {
+            // crossing along x only / y only, ending exactly at the edge, starting at the edge with size 0
+            ops += &format!(" q{c}:{}:0:1:1", mx);
+            ops += &format!(" q{c}:{}:0:2:1", mx - 1);
+            ops += &format!(" q{c}:{}:0:10:1", mx.saturating_sub(5));
+            ops += &format!(" q{c}:0:{}:1:1", my);
+            ops += &format!(" q{c}:0:{}:1:2", my - 1);
+            ops += &format!(" q{c}:0:{}:1:10", my.saturating_sub(5));
+            ops += &format!(" q{c}:{}:0:65536:1", mx.saturating_sub(65535));
+            ops += &format!(" q{c}:0:{}:1:65536", my.saturating_sub(65535));
+            ops += &format!(" q{c}:{}:0:0:1 q{c}:0:{}:1:0", mx, my);
+        }
+        ops += &format!(" q3:{}:{}:1:1 s", mx - 1, my - 1);
+        for env in ["n", "n,c"] {
+            let (o, fl) = g.opt_fl(file.len() as u64, false);
+            g.push(&o, &fl, env, &file, Some((300, 3)), &ops);
+        }
+    }
     g.out
 }
